@@ -38,3 +38,20 @@ Theorem C02_probe_sound :
   exists d, cell_contains_point OP est lon lat = Some d /\ o_ltb OP (o_ofZ OP 0) d = Some true.
 Proof. exact (@probe_sound). Qed.
 Print Assumptions C02_probe_sound.
+
+(* ---- Interval model soundness: the executable interval instance (used by the correspondence check) encloses the
+   ideal-real instance about which the theorems of this file speak.  [encl i x] = the real x lies in the interval i;
+   [sound_opt rel a b] = whenever the interval run answers [Some], the real run answers [Some] with a related value
+   (the interval run may give up with [None], never answer differently). ---- *)
+From A5 Require Import Num.IvInst Num.IvSound Geo.IvSoundGeo Geo.IvSoundCell.
+
+Theorem C02_interval_centre_sound : forall id,
+  sound_opt (rout encl2) (cell_to_lonlat IvInst id) (cell_to_lonlat RInst id).
+Proof. exact cell_to_lonlat_sound. Qed.
+Print Assumptions C02_interval_centre_sound.
+
+Theorem C02_interval_lookup_sound : forall lon lat lon' lat' res,
+  encl lon lon' -> encl lat lat' ->
+  sound_opt eq (lonlat_to_cell IvInst lon lat res) (lonlat_to_cell RInst lon' lat' res).
+Proof. exact lonlat_to_cell_sound. Qed.
+Print Assumptions C02_interval_lookup_sound.
